@@ -736,6 +736,43 @@ pub fn execute(sc: &RegScenario, stats: &mut Stats) -> Outcome {
                 }
             }
         } else {
+            // certain by construction: a name that is registered nowhere must be refused when
+            // the template is added, wherever it is written (C07)
+            if let Some(k) = &note.invalid {
+                // (only for raw adds: a reload may legitimately not even list the broken file)
+                // the marker must sit inside a variable or block tag (not in literal text or a
+                // comment): minimisation must not be able to keep the class alive with junk
+                let d = &sc.config.delims;
+                let carries = |src: &str| {
+                    ["no_such_filter", "no_such_test", "no_such_fn", "NoSuchComp", "nope.html"].iter().any(|m| {
+                        src.match_indices(m).any(|(pos, _)| {
+                            let before = &src[..pos];
+                            let open = [d.vs.as_str(), d.bs.as_str()].iter().filter_map(|o| before.rfind(o)).max();
+                            let Some(o) = open else { return false };
+                            if before.rfind(d.cs.as_str()).map(|c| c > o).unwrap_or(false) {
+                                return false;
+                            }
+                            let inside = &before[o..];
+                            !inside.contains(d.ve.as_str()) && !inside.contains(d.be.as_str()) && !before.contains("raw")
+                        })
+                    })
+                };
+                let still_there = match op {
+                    Op::AddRaw { source, .. } => carries(source),
+                    // the carrier must be the last occurrence of its name in the batch
+                    Op::AddBatch { items } => items.iter().enumerate().any(|(ix, (n, src))| carries(src) && !items[ix + 1..].iter().any(|(n2, _)| n2 == n)),
+                    _ => false,
+                };
+                // ... and only while the delimiters are still the ones the sources were written
+                // for (a late set_delimiters succeeds on an empty registry: tags become text)
+                if k.starts_with("unknown-") && still_there && model.config.delims == sc.config.delims {
+                    out.violations.push(Violation::new(
+                        "C07",
+                        "unknown-reference-accepted-at-registration",
+                        format!("op {} ({}) carries an {} reference (no_such_* / NoSuchComp / nope.html) but was accepted", i, op.kind(), k),
+                    ));
+                }
+            }
             let Some(m2) = next_model else {
                 // succeeded although the model could not follow (e.g. a non-UTF-8 read accepted)
                 out.violations.push(Violation::new("C10", "accepted-unreadable-input", format!("op {} ({}) returned Ok but the model has no resulting set", i, op.kind())));
